@@ -381,6 +381,32 @@ fn op_brief(op: &Op) -> String {
     }
 }
 
+/// the first caret line is the offending stored line as LIST renders it (minus the number prefix)
+fn caret_matches_listing(s: &mut Sess, call: &Call, ctx: &mut Ctx) -> Option<Violation> {
+    let e = call.err()?;
+    let n = e.line?;
+    let Ok(lines) = &e.caret else { return None };
+    if lines.len() != 2 || s.state() != St::Idle {
+        return None;
+    }
+    let listing = s.list()?;
+    ctx.calls(1);
+    let prefix = format!("{} ", n);
+    let want = listing.iter().find(|l| l.starts_with(&prefix)).map(|l| {
+        let t = &l[prefix.len()..];
+        t.strip_suffix('\n').unwrap_or(t).to_string()
+    });
+    ctx.count("reach.caret_line_compared");
+    match want {
+        Some(w) if w == lines[0] => None,
+        other => Some(Violation::new(
+            "C01/caret-line-differs",
+            e.kind.clone(),
+            format!("{} : caret shows {:?}, LIST shows {:?}", e.text, lines[0], other),
+        )),
+    }
+}
+
 /// canary: the interpreter still accepts lines
 fn canary(s: &mut Sess, ctx: &mut Ctx) -> Option<Violation> {
     if s.state() != St::Idle {
@@ -495,9 +521,30 @@ impl Prop for C01 {
         let mut m = Monitor::new();
         let mut ops: Vec<Op> = Vec::with_capacity(k.max_ops);
         let mut violation = None;
+        // pool (a): in 1 of 3 sessions a whole grammar-generated program is typed in first
+        let mut preload: Vec<Op> = vec![];
+        if rng.chance(1, 3) {
+            let mut gk = crate::gen::Knobs::swarm(rng);
+            gk.input = rng.chance(1, 2);
+            gk.stop = rng.chance(1, 2);
+            gk.max_lines = 3 + rng.usize(14);
+            let mut grng = rng.fork();
+            let (prog, _) = crate::gen::Gen::new(&mut grng, gk).program();
+            preload = prog.iter().map(|l| Op::Line(crate::ast::print_line(l))).collect();
+            preload.push(Op::Line("RUN".into()));
+            preload.reverse();
+            ctx.count("reach.grammar_program_session");
+        }
         for _ in 0..k.max_ops {
             let before = s.state();
-            let op = choose(rng, &k, before, ctx);
+            let op = match (before, preload.pop()) {
+                (St::Idle, Some(op)) => op,
+                (_, Some(op)) => {
+                    preload.push(op);
+                    choose(rng, &k, before, ctx)
+                }
+                (_, None) => choose(rng, &k, before, ctx),
+            };
             ops.push(op.clone());
             if ctx.announce_all || is_dangerous(&op) {
                 ctx.announce(&Case { ops: ops.clone() });
@@ -512,6 +559,10 @@ impl Prop for C01 {
                 ctx.count("reach.awaiting_input");
             }
             if let Some(v) = m.check(&op, before, &call) {
+                violation = Some(v);
+                break;
+            }
+            if let Some(v) = caret_matches_listing(&mut s, &call, ctx) {
                 violation = Some(v);
                 break;
             }
@@ -548,6 +599,9 @@ impl Prop for C01 {
             let Some(call) = s.apply(op) else { continue };
             ctx.calls(1);
             if let Some(v) = m.check(op, before, &call) {
+                return Some(v);
+            }
+            if let Some(v) = caret_matches_listing(&mut s, &call, ctx) {
                 return Some(v);
             }
             m.since_canary += 1;
